@@ -16,7 +16,7 @@ def textCovered : List String :=
 
 theorem text_covered_types :
     textCovered = ["A", "AFSDB", "AVC", "CAA", "CDNSKEY", "CDS", "CERT", "CNAME", "CSYNC", "DHCID", "DLV", "DNAME", "DNSKEY", "DS", "EID", "EUI48", "EUI64", "GID", "HINFO", "ISDN", "KEY", "KX", "L64", "LP", "MB", "MD", "MF", "MG",
-      "MINFO", "MR", "MX", "NID", "NIMLOC", "NINFO", "NS", "NSAPPTR", "NSEC", "NSEC3PARAM", "NXT", "OPENPGPKEY", "PTR", "PX", "RESINFO", "RKEY", "RP", "RT", "SMIMEA", "SOA", "SPF", "SRV",
+      "MINFO", "MR", "MX", "NID", "NIMLOC", "NINFO", "NS", "NSAPPTR", "NSEC", "NSEC3", "NSEC3PARAM", "NXT", "OPENPGPKEY", "PTR", "PX", "RESINFO", "RKEY", "RP", "RT", "SMIMEA", "SOA", "SPF", "SRV",
       "SSHFP", "TA", "TALINK", "TLSA", "TXT", "UID", "UINFO", "URI", "X25", "ZONEMD"] := by
   decide
 
@@ -47,6 +47,8 @@ theorem fits_exist (P Q : List TStep) (h : matchPlans P Q = true) : ∃ vals val
     · exact ⟨.s (presentOf []), ⟨[], by decide, rfl⟩⟩
     · rename_i u; cases u <;> simp only [kindEq, Bool.false_eq_true] at hk
       exact ⟨.s [65], ⟨by simp, by decide⟩⟩
+    · rename_i u; cases u <;> simp only [kindEq, Bool.false_eq_true] at hk
+      exact ⟨.s [65], ⟨by simp, by decide⟩⟩
     · exact ⟨.n 0, by simp only [FieldWF]; exact Nat.two_pow_pos _⟩
     · exact ⟨.n 0, by simp [FieldWF]⟩
     · exact ⟨.n 0, by simp only [FieldWF]; exact Nat.two_pow_pos _⟩
@@ -72,7 +74,10 @@ theorem fits_exist (P Q : List TStep) (h : matchPlans P Q = true) : ∃ vals val
   · rename_i p q
     obtain ⟨v, hv⟩ := hfield p q h
     exact ⟨_, _, Fits.types p q v [1, 255, 65535] h hv (by decide)⟩
-  · rename_i p P q Q ih
+  · rename_i P Q ih
+    obtain ⟨vs, vs', hfs⟩ := ih h
+    exact ⟨_, _, Fits.consSalt [] (Or.inl rfl) P Q vs vs' hfs⟩
+  · rename_i p P q Q _ ih
     simp only [Bool.and_eq_true] at h
     obtain ⟨v, hv⟩ := hfield p q h.1
     obtain ⟨vs, vs', hfs⟩ := ih h.2
